@@ -549,18 +549,37 @@ func c19ResourceGrowth(c *Ctx, srv *server) {
 	type class struct {
 		name, method, path string
 		body               []byte
+		// vary, when set, gives the i-th request of the class its own path / body: the requests of the class are then
+		// all DIFFERENT from one another (a table keyed by request data grows with distinct requests, not with repeats)
+		vary func(i int) (string, []byte)
 	}
+	long := strings.Repeat("a", 6000)
+	seq := 0
 	classes := []class{
-		{"home", "GET", "/", nil},
-		{"docs-index", "GET", "/docs/index.html", nil},
-		{"docs-static-asset", "GET", "/docs/swagger-ui.css", nil},
-		{"docs-unknown-file", "GET", "/docs/no-such-file.png", nil},
-		{"docs-json", "GET", "/docs/doc.json", nil},
-		{"unknown-path", "GET", "/no/such/path", nil},
-		{"wrong-method", "GET", "/totp/generate", nil},
-		{"broken-json", "POST", "/hotp/generate", []byte("{\"secret\":")},
-		{"suite-list", "GET", "/ocra/suites", nil},
-		{"hotp-generate", "POST", "/hotp/generate", []byte("{\"secret\":\"GEZDGNBVGY3TQOJQGEZDGNBVGY3TQOJQ\",\"counter\":1}")},
+		{"home", "GET", "/", nil, nil},
+		{"docs-index", "GET", "/docs/index.html", nil, nil},
+		{"docs-static-asset", "GET", "/docs/swagger-ui.css", nil, nil},
+		{"docs-unknown-file", "GET", "/docs/no-such-file.png", nil, nil},
+		{"docs-json", "GET", "/docs/doc.json", nil, nil},
+		{"unknown-path", "GET", "/no/such/path", nil, nil},
+		{"wrong-method", "GET", "/totp/generate", nil, nil},
+		{"broken-json", "POST", "/hotp/generate", []byte("{\"secret\":"), nil},
+		{"suite-list", "GET", "/ocra/suites", nil, nil},
+		{"hotp-generate", "POST", "/hotp/generate", []byte("{\"secret\":\"GEZDGNBVGY3TQOJQGEZDGNBVGY3TQOJQ\",\"counter\":1}"), nil},
+		{name: "distinct-unknown-paths", method: "GET", vary: func(i int) (string, []byte) { return fmt.Sprintf("/files/%s/%d", long, i), nil }},
+		{name: "distinct-methods-and-paths", method: "PUT", vary: func(i int) (string, []byte) { return fmt.Sprintf("/totp/generate/%d/%s", i, long[:3000]), nil }},
+		{name: "distinct-query-strings", method: "GET", vary: func(i int) (string, []byte) {
+			return fmt.Sprintf("/otp/secret?algorithm=SHA1&x%d=%s", i, long[:3000]), nil
+		}},
+		{name: "distinct-secrets", method: "POST", vary: func(i int) (string, []byte) {
+			return "/hotp/generate", []byte(fmt.Sprintf("{\"secret\":\"%s\",\"counter\":%d}", ref.Base32Encode([]byte(fmt.Sprintf("%0600d", i))), i))
+		}},
+		{name: "distinct-issuers", method: "POST", vary: func(i int) (string, []byte) {
+			return "/otp/url", []byte(fmt.Sprintf("{\"secret\":\"GEZDGNBVGY3TQOJQGEZDGNBVGY3TQOJQ\",\"type\":\"totp\",\"issuer\":\"%s%d\",\"account_name\":\"a%d\"}", long[:3000], i, i))
+		}},
+		{name: "distinct-refused-bodies", method: "POST", vary: func(i int) (string, []byte) {
+			return "/ocra/generate", []byte(fmt.Sprintf("{\"secret\":\"x%d\",\"raw_suite\":\"nope-%s-%d\",\"input\":{}}", i, long[:3000], i))
+		}},
 	}
 	batch := c.N(2500, 12000)
 	const growthKB = 4096
@@ -573,7 +592,15 @@ func c19ResourceGrowth(c *Ctx, srv *server) {
 			return
 		}
 		for b := 1; b <= 4; b++ {
-			monParallel(batch, 16, func(i int) { srv.do(cl.method, cl.path, cl.body, false, 30*time.Second) })
+			base := seq
+			seq += batch
+			monParallel(batch, 16, func(i int) {
+				path, body := cl.path, cl.body
+				if cl.vary != nil {
+					path, body = cl.vary(base + i)
+				}
+				srv.do(cl.method, path, body, false, 30*time.Second)
+			})
 			rss[b], _ = srv.rssKB()
 		}
 		r.Eval(1)
@@ -721,7 +748,7 @@ func runC19(c *Ctx) {
 func init() {
 	register(&Prop{
 		ID: "C19",
-		Rule: "the real server binary on loopback receives a seeded shuffle of hostile requests (broken JSON, every field with every JSON type, numbers at and beyond 64-bit limits, skew/period/counter/timestamp extremes, unknown/contradictory/weird suites, bad hex, 1 MiB bodies and bodies above the limit, every method x every path, unknown paths, raw TCP fragments), sequentially with per-request server CPU accounting (/proc/<pid>/stat) and then on 32 connections, interleaved with well-formed probe requests judged by the C18 oracle; every response must be complete, 2xx only with the endpoint's success object, no single request may cost more than 2 CPU-seconds, refused skews must not accept, value-equivalent respellings of well-formed requests (numbers as 100.0 / 1e2 / \"100\", shuffled keys, unused fields of a wrong type) must be refused or answered for exactly the values written (C18 oracle), for ten request classes four equal batches are sent and the server's resident memory is read after each (steady growth of >= 4 MiB per batch = something is kept per request for good), 27 request-header names x hostile values one at a time under CPU accounting; on a second server: refused/failed first requests followed by a well-formed request on the same connection (judged by the C18 oracle), abandoned uploads and clients stalled beyond the read timeout, each followed by probes; documentation assets requested by 224 clients at once under eight Accept-Encoding values in rounds that each meet an expired compressed-file cache, by one client alone and by 40 clients with the same first request on freshly started servers for every (file, coding) pair, and by 96 concurrent byte-range requests per round, must decode (by the coding the response names) to the bytes served for the identity coding resp. carry the bytes their Content-Range names, probes must stay correct and the process alive; " +
+		Rule: "the real server binary on loopback receives a seeded shuffle of hostile requests (broken JSON, every field with every JSON type, numbers at and beyond 64-bit limits, skew/period/counter/timestamp extremes, unknown/contradictory/weird suites, bad hex, 1 MiB bodies and bodies above the limit, every method x every path, unknown paths, raw TCP fragments), sequentially with per-request server CPU accounting (/proc/<pid>/stat) and then on 32 connections, interleaved with well-formed probe requests judged by the C18 oracle; every response must be complete, 2xx only with the endpoint's success object, no single request may cost more than 2 CPU-seconds, refused skews must not accept, value-equivalent respellings of well-formed requests (numbers as 100.0 / 1e2 / \"100\", shuffled keys, unused fields of a wrong type) must be refused or answered for exactly the values written (C18 oracle), for sixteen request classes (ten of identical requests, six whose requests all differ from one another in a long path, query, secret, issuer or refused field) four equal batches are sent and the server's resident memory is read after each (steady growth of >= 4 MiB per batch = something is kept per request for good), 27 request-header names x hostile values one at a time under CPU accounting; on a second server: refused/failed first requests followed by a well-formed request on the same connection (judged by the C18 oracle), abandoned uploads and clients stalled beyond the read timeout, each followed by probes; documentation assets requested by 224 clients at once under eight Accept-Encoding values in rounds that each meet an expired compressed-file cache, by one client alone and by 40 clients with the same first request on freshly started servers for every (file, coding) pair, and by 96 concurrent byte-range requests per round, must decode (by the coding the response names) to the bytes served for the identity coding resp. carry the bytes their Content-Range names, probes must stay correct and the process alive; " +
 			"distinct_nontrivial counts distinct hostile (method, path, body) requests plus distinct probes",
 		Run: runC19,
 		Replay: func(c *Ctx, kind string, raw json.RawMessage) error {
